@@ -1381,6 +1381,31 @@ def c13_extra(ctx, cases):
             p2 = os.path.join(d, "twin_%04d_%d.json" % (ex["id"], len(pairs)))
             json.dump(e2, open(p2, "w", encoding="utf-8"), ensure_ascii=False)
             pairs.append((ex, e2, p2, track, ic, ia, kinds))
+    # directed: ALL course_id values of the selected track replaced (without --ignore-assigned) and / or ALL segment flags of the selected track
+    # flipped (without --ignore-cancelled): whatever role a registration or course plays, these data must not matter
+    r3 = random.Random(ctx.seed + 1314)
+    for ex in exports[:(90 if ctx.tier == "quick" else 900)]:
+        e = ex["export"]
+        if e["kind"] != "partial" or not ex["tracks"]:
+            continue
+        tid = r3.choice(ex["tracks"])[0]
+        ic, ia = r3.choice([(False, False), (False, False), (True, False), (False, True)])
+        e2 = copy.deepcopy(e)
+        cids = [int(c) for c in e2["courses"]]
+        kinds = []
+        if not ia:
+            for reg in e2["registrations"].values():
+                if str(tid) in reg["tracks"]:
+                    reg["tracks"][str(tid)]["course_id"] = r3.choice([None] + cids + cids)
+            kinds.append("all_course_ids")
+        if not ic:
+            for c in e2["courses"].values():
+                if isinstance(c["segments"].get(str(tid)), bool):
+                    c["segments"][str(tid)] = (not c["segments"][str(tid)]) if r3.random() < 0.7 else c["segments"][str(tid)]
+            kinds.append("all_seg_flags")
+        p2 = os.path.join(d, "twin_all_%04d.json" % ex["id"])
+        json.dump(e2, open(p2, "w", encoding="utf-8"), ensure_ascii=False)
+        pairs.append((ex, e2, p2, tid, ic, ia, kinds))
     # directed: tie-heavy exports (several equally good solutions; which one is written depends on the order of the participants) whose twin has
     # the alphabetical order of the persona names REVERSED -- the order of the participants must be that of the registration ids only
     r2 = random.Random(ctx.seed + 1313)
